@@ -116,8 +116,9 @@ def check(ctx: Ctx):
     # order: conversion before the values test
     vt = [n for n in cpv.node.body if isinstance(n, ast.If) and norm(n.test) == f"{pd}.values"]
     tt = [n for n in cpv.node.body if isinstance(n, ast.If) and norm(n.test) == f"not is_of_type_by_str({pv}, {pd}.type)"]
-    ctx.check(len(vt) == 1 and len(tt) == 1 and cpv.node.body.index(tt[0]) < cpv.node.body.index(vt[0]), "R-CHECKVALUE", "type conversion precedes the allowed-values test", cpv,
-              vt[0] if vt else cpv.node, "")
+    early = [st for st in (cpv.node.body[:cpv.node.body.index(tt[0]) + 1] if tt else cpv.node.body) if any(norm(x) == f"{pd}.values" for x in ast.walk(st))]
+    ctx.check(len(vt) == 1 and len(tt) == 1 and cpv.node.body.index(tt[0]) < cpv.node.body.index(vt[0]) and not early, "R-CHECKVALUE", "type conversion precedes every use of the allowed values", cpv,
+              (early or vt or [cpv.node])[0], "a value given as a string ('5' for an int parameter with allowed values [5, 6]) must be converted before it is compared with the allowed values")
     it = repo.func(ALG, "is_of_type_by_str")
     ctx.check("return value.__class__.__name__ == type_str" in norm(it.node), "R-CHECKVALUE", "type test compares the class name with the declared type", it, it.node, "")
 
@@ -126,6 +127,12 @@ def check(ctx: Ctx):
     ctx.check("parameters_definitions = algo_module.algo_params" in t and "load_algorithm_module(algo)" in t and "params = prepare_algo_params(params, parameters_definitions)" in t
               and "return AlgorithmDef(algo, params, mode)" in t and "params = {} if params is None else params" in t, "R-ROUTE", "build_with_default_param", bwd, bwd.node,
               "the definitions come from the algorithm's own module and the instance is built from the prepared parameters")
+    top = bwd.node.body
+    prep = [i for i, st in enumerate(top) if isinstance(st, ast.Assign) and norm(st) == "params = prepare_algo_params(params, parameters_definitions)"]
+    rets = [x for x in walk_no_nested(bwd.node) if isinstance(x, ast.Return)]
+    ctx.check(len(prep) == 1 and len(rets) == 1 and rets[0] is top[-1] and norm(rets[0].value) == "AlgorithmDef(algo, params, mode)", "R-ROUTE",
+              "build_with_default_param prepares the parameters unconditionally, on the only path to the only return", bwd, top[prep[0]] if prep else bwd.node,
+              "an algorithm that declares no parameter must still reject unknown names: prepare_algo_params may not be skipped for an empty declaration list")
     t = norm(bad.node)
     sp = [n for n in ast.walk(bad.node) if isinstance(n, ast.Assign) and isinstance(n.value, ast.Call) and norm(n.value.func).endswith(".split")]
     ctx.check(len(sp) == 1 and norm(sp[0].value.args[0]) == "':'" and isinstance(sp[0].targets[0], ast.Tuple) and len(sp[0].targets[0].elts) == 2, "R-ROUTE",
@@ -187,6 +194,7 @@ def check(ctx: Ctx):
 
 _A = "pydcop/algorithms/__init__.py"
 VARIANTS = [
+    ("prepare_skipped_without_declarations", "pydcop/algorithms/__init__.py", "        params = prepare_algo_params(\n            params, parameters_definitions)  # type: Dict[str, Any]\n", "        if parameters_definitions:\n            params = prepare_algo_params(\n                params, parameters_definitions)  # type: Dict[str, Any]\n", "break", "R-ROUTE"),
     ("raw_value_stored", _A, "            param_val = check_param_value(param_val, param_def)\n            selected_params[param_name] = param_val", "            check_param_value(param_val, param_def)\n            selected_params[param_name] = param_val", "break", "R-STORECHECKED"),
     ("unknown_ignored", _A, "        else:\n            raise ValueError('Unknown parameter for algorithm : {}'\n                             .format(param_name))\n", "", "break", "R-UNKNOWN"),
     ("defaults_all", _A, "    missing_params = set(all_algo_params) - set(params)", "    missing_params = set(all_algo_params)", "break", "R-DEFAULTS"),
@@ -195,7 +203,7 @@ VARIANTS = [
     ("conversion_unconditional", _A, "        if param_def.type == 'int':\n            param_val = int(param_val)", "        if param_def.type != 'str':\n            param_val = int(param_val)", "break", "R-CHECKVALUE"),
     ("values_check_on_original", _A, "    if param_def.values:\n        if param_val in param_def.values:\n            return param_val", "    if param_def.values:\n        if str(param_val) in param_def.values:\n            return param_val", "break", "R-CHECKVALUE"),
     ("bad_value_returned", _A, "        else:\n            raise ValueError('Invalid value for parameter {}, must be one of '\n                             '{}'.format(param_def.name, param_def.values))\n", "", "break", "R-CHECKVALUE"),
-    ("values_before_conversion", _A, "    if not is_of_type_by_str(param_val, param_def.type):\n        if param_def.type == 'int':", "    if param_def.values and param_val not in param_def.values:\n        raise ValueError('Invalid value')\n    if not is_of_type_by_str(param_val, param_def.type):\n        if param_def.type == 'int':", "break", "R-CHECKVALUE"),
+    ("values_before_conversion", _A, "    if not is_of_type_by_str(param_val, param_def.type):\n\n        if param_def.type == 'int':", "    if param_def.values and param_val not in param_def.values:\n        raise ValueError('Invalid value')\n    if not is_of_type_by_str(param_val, param_def.type):\n        if param_def.type == 'int':", "break", "R-CHECKVALUE"),
     ("default_wrong_type", "pydcop/algorithms/dsa.py", "    AlgoParameterDef(\"stop_cycle\", \"int\", None, 0),", "    AlgoParameterDef(\"stop_cycle\", \"int\", None, \"0\"),", "break", "R-DECL"),
     ("default_not_allowed", "pydcop/algorithms/dsa.py", "AlgoParameterDef(\"variant\", \"str\", [\"A\", \"B\", \"C\"], \"B\")", "AlgoParameterDef(\"variant\", \"str\", [\"A\", \"B\", \"C\"], \"D\")", "break", "R-DECL"),
     ("undeclared_read", "pydcop/algorithms/mgm.py", "        self.stop_cycle = computation_definition.algo.param_value(\"stop_cycle\")", "        self.stop_cycle = computation_definition.algo.param_value(\"stop_cycles\")", "break", "R-DECL"),
